@@ -155,11 +155,14 @@ fn run_keys(c: &KeyCase) -> CaseResult {
     let _clk = clock::Armed::new();
     let vt = VTerm::raw(500, COLS);
     let seen = Arc::new(Mutex::new(Seen::default()));
+    let unshown = Arc::new(Mutex::new(Seen::default()));
     let style = ProgressStyle::with_template(&template())
         .unwrap()
         .tick_strings(&TICKS)
         .progress_chars("#>-")
-        .with_key("trk", Tracker(seen.clone()));
+        .with_key("trk", Tracker(seen.clone()))
+        // registered but not part of the template until the end of the case
+        .with_key("trk_unshown", Tracker(unshown.clone()));
     let pb = ProgressBar::with_draw_target(c.len, ProgressDrawTarget::term_like(vt.boxed())).with_position(c.start);
     pb.set_style(style);
     let mut ticks = 0u64; // spinner ticks as defined by the API (tick, and every position update)
@@ -309,6 +312,22 @@ fn run_keys(c: &KeyCase) -> CaseResult {
         v.label_if(ps > 0.0, "rate_nonzero");
         v.label_if(el >= Duration::from_secs(3600), "elapsed_hours");
     }
+    // a key that was registered all along but never shown: it was ticked and reset together with the bar,
+    // and a template switch that keeps the trackers (style().template()) shows its current counters
+    {
+        let st = pb.style().template("unshown=<{trk_unshown}>").unwrap();
+        pb.set_style(st);
+        catch(|| pb.force_draw()).map_err(|p| Fail::new("panic", format!("draw after the template switch panicked: {p}")))?;
+        let lines = vt.last_frame_lines().map_err(|e| Fail::new("harness", e))?;
+        if !lines.is_empty() {
+            let s = unshown.lock().unwrap().clone();
+            ensure!(s.ticks >= trk_ticks, "tracker", "a custom key that is registered but not part of the template received {} tick notifications, the bar was ticked/updated {trk_ticks} times", s.ticks);
+            ensure!(s.resets >= resets, "tracker", "a custom key that is registered but not part of the template received {} reset notifications for {resets} reset() calls", s.resets);
+            let got = field(&lines, "unshown")?;
+            ensure!(got == format!("T{}R{}", s.ticks, s.resets), "tracker", "after the template switch the formerly unshown key renders {got:?}, its counters are T{}R{}", s.ticks, s.resets);
+            v.label("unshown_tracker_kept_up_to_date");
+        }
+    }
     // a custom key registered under the name of a built-in one is the one that is written (the crate's own
     // download example replaces {eta} like that); which names are shadowed is derived from the case
     {
@@ -360,7 +379,7 @@ pub fn property() -> Property {
             name: "keys",
             rule: "one template holding every documented key (26 plain, 5 with width/alignment, wide_msg, bar, wide_bar) and a stateful custom tracker; 0-16 (thorough 40) ops (inc/dec/set_position/update/set_length/unset_length/inc_length/set_message/set_prefix/tick/reset/reset_eta/finish/finish_with_message/abandon) with gaps 2 ms..55 h on the virtual clock; after every op a forced draw is compared field by field with the getters pushed through the public formatters; non-trivial = position/length/message differ from creation",
             strategy: case_strategy,
-            cases: |t| t.pick(2_500, 480_000),
+            cases: |t| t.pick(7_500, 480_000),
             run: run_keys,
             signature: no_signature,
             essential: &["state_changed_before_draw", "unknown_length", "len_lt_pos", "finished", "eta_nonzero", "rate_nonzero", "elapsed_hours", "reset", "custom_key_shadows_a_built_in_key"],
